@@ -16,6 +16,9 @@ static link *mk_link(void) { link *l = calloc(1, sizeof(link)); ASSUME(l != 0); 
 static meta *mk_meta(void) { meta *m = calloc(1, sizeof(meta)); ASSUME(m != 0); m->key = dup1('k'); m->value = dup1('v'); return m; }
 int main(void) {
 	IN_LOAD();
+#ifdef OWNERSHIP
+	for (int i = 0; i < 10; i++) IN.n[i] = IN.n[i] & 1 & (i == 7 || i == 8);      /* only links/metadata vary; the notes are set up below */
+#endif
 	for (int i = 0; i < 10; i++) ASSUME(IN.n[i] <= 2);
 	static mmd_engine e; static token dummy[4];
 	e.abbreviation_stack = stack_new(0); e.citation_stack = stack_new(0); e.critic_stack = stack_new(0); e.definition_stack = stack_new(0); e.footnote_stack = stack_new(0);
@@ -42,7 +45,9 @@ int main(void) {
 		ASSUME(root && blk && txt); token_append_child(blk, txt); token_append_child(root, blk);
 		e.root = root;
 		footnote *f = mk_note(); f->content = blk; f->free_para = false; stack_push(e.footnote_stack, f);
-		footnote *g = mk_note(); g->content = token_new(BLOCK_PARA, 4, 2); g->free_para = true; stack_push(e.citation_stack, g);
+		/* inline note: footnote_new() wrapped tokens that still belong to the tree in a BLOCK_PARA of its own -- only the wrapper is the note's */
+		token *inl = token_new(TEXT_PLAIN, 4, 2); ASSUME(inl != 0); token_append_child(blk, inl);
+		footnote *g = mk_note(); g->content = token_new(BLOCK_PARA, 4, 2); ASSUME(g->content != 0); g->content->child = inl; g->free_para = true; stack_push(e.citation_stack, g);
 		footnote *h = mk_note(); h->content = blk; h->free_para = false; stack_push(e.glossary_stack, h);
 		footnote *a = mk_note(); a->content = blk; a->free_para = false; stack_push(e.abbreviation_stack, a);
 	}
